@@ -19,7 +19,7 @@ TABLE = {
             "Failure atomicity and frozen-refusal are decided on every CFG path of add_resource / add_window / align_to with interprocedural may-raise / writes summaries; freeze-on-hand-over by post-dominance; interval discipline by a small type system over bisect / comparison sites; _align_up by modular reduction; every query method writes no field of the map or its memo is written by every mutator.",
             "numeric correctness of the bisect indices beyond the endpoint kinds (N1)", "6/C02"),
     "C03": ("construction-site ownership, affine address-unit typing with a dependency clause, guard tables (Boolean function of table membership per result), flattened view when _translate is split",
-            "Decides that all three traversals share one translation authority (_translate) fed with the window's own stored range, that scale and base are applied on the right side (unit typing), and that the dispatch over resources / windows is a partition in address order; the queries refuse nothing (closed refusal set: an address outside every range decodes to None).",
+            "Decides that all three traversals share one translation authority (_translate) fed with the window's own stored range, that scale and base are applied on the right side (unit typing), and that the dispatch over resources / windows is a partition in address order; the queries refuse nothing (closed refusal set: an address outside every range decodes to None). The look-ups never read the placement cursor.",
             "numeric equality of the traversals over all trees (N1)", "6/C03"),
     "C04": ("template conformance of Multiplexer.elaborate (read half) on the E-DSL model; decision lists by truth table",
             "One-step facts F1-F4 of Appendix C decided for every layout (loop indices symbolic): read strobe only on the first chunk address, delayed select, capture on the register's strobe, bus data gated by the chunk's select. The give-up threshold of _Shadow.prepare() is not below 2**ceil_log2(max stop) (a legal layout is not refused for want of one more doubling).",
@@ -28,10 +28,10 @@ TABLE = {
             "One-step facts decided for every layout: chunk write enables, registered write strobe exactly on the last address with the clear at lower priority (effective order incl. Switch hoisting), data concatenation, no cross-talk between read and write halves, sharing limit flows only into the balance test. The give-up threshold of _Shadow.prepare() is not below 2**ceil_log2(max stop).",
             "as C04", "6/C05"),
     "C06": ("template conformance of csr.Decoder.add / elaborate",
-            "Strobes gated by the subordinate's own window pattern, address low bits and write data forwarded unmodified and unconditionally, read data OR-reduced over all subordinates, add() validation before registration.",
+            "Strobes gated by the subordinate's own window pattern, address low bits and write data forwarded unmodified and unconditionally, read data OR-reduced over all subordinates, add() validation before registration. A refused add() leaves the subordinate table untouched (D15, fixed); the address handed on is not cut with an unguarded [:-n].",
             "equivalence of a decoder tree with a flat multiplexer (N3)", "6/C06"),
     "C07": ("template conformance of wishbone.Decoder.add / elaborate, name-triple agreement, protocol default table, exhaustive feature split",
-            "Request fan-out, selection by own pattern, optional-signal triples and defaults, response fan-in per signal name, add() validation order; D7 (dense window onto finer granularity) is reported as a known finding. Constructor parameters reach the port signature as given (granularity=None resolved as the signature resolves it).",
+            "Request fan-out, selection by own pattern, optional-signal triples and defaults, response fan-in per signal name, add() validation order; D7 (dense window onto finer granularity) is reported as a known finding. Constructor parameters reach the port signature as given (granularity=None resolved as the signature resolves it). A refused add() leaves the subordinate table untouched (D15, fixed).",
             "response isolation only under the property's own proviso; pattern numbers (N1)", "6/C07"),
     "C08": ("template conformance of Arbiter.add / elaborate; truth table of the busy term",
             "Every shared-bus request driver under the owner's Case, responses only to the owner from the same-named signal, stall default 1 for non-owners, grant written only when not busy, add() validation. Constructor parameters reach the shared-bus signature as given (granularity=None resolved as the signature resolves it).",
@@ -46,7 +46,7 @@ TABLE = {
             "Slice = [acc, acc+w), acc advanced unconditionally once per field to the slice stop, same slice for read and write (or: element.r_data = Cat(parts) with exactly one part per field, each as wide as its field), strobes and data wired under readable()/writable(), width summed from the same expression, access rejection dominates construction, flatten order. A loop-carried width updated after a conditional `continue` is summed only over the iterations that reach it; the annotation filter keeps or drops entries by value, never by name.",
             "Amaranth slicing of zero-width / signed shapes (N4)", "6/C11"),
     "C12": ("decision-list equality by canonical truth table; member-direction agreement",
-            "The five elaborate() bodies are their own one-step semantics; each storage bit's next-state list is compared with the documented table for a symbolic bit index (every width), read-back and pass-through wiring, storage constructor; plain members that elaborate() drives are declared Out, those it only reads In. The action constructors add no refusal of their own.",
+            "The five elaborate() bodies are their own one-step semantics; each storage bit's next-state list is compared with the documented table for a symbolic bit index (every width), read-back and pass-through wiring, storage constructor; plain members that elaborate() drives are declared Out, those it only reads In. The action constructors add no refusal of their own. Signals created from the shape-like `shape` are only assigned, compared or converted, so enumeration and layout shapes elaborate (D16, fixed).",
             "nothing beyond A2/N4", "6/C12"),
     "C13": ("decision-list equality with exhaustive split over trigger modes; typestate of EventMap",
             "Trigger formulas per mode, pending next-state (trigger wins over clear), index agreement from one sources() tuple (no regrouped partitions), outgoing line (also as an OR over the sources), EventMap.add dense/stable numbering with frozen guard dominating the store, setter freezes. A refused Monitor() leaves the event map it was given untouched (constructor failure atomicity over the arguments); the source stored under id(X) is X.",
@@ -55,10 +55,10 @@ TABLE = {
             "Enable latch and read-back, write-one-to-clear gated by the write strobe, role agreement enable/pending, register sizing by ceil-division, map publication, bus port polarity and connect polarity. The event map's numbering rules (one number per source object) are re-checked under this property.",
             "cycle-level interplay of clear and trigger beyond the decision lists (N2); atomic multi-chunk read inherited from C04", "6/C14"),
     "C15": ("decision-list equality; generation-condition `writable`; geometry expressions",
-            "ack' = !ack & cyc & stb, write enable only under writable and inside the request branch with [we -> sel; 0], address/data wiring by port origin call, geometry expressions and frozen map.",
+            "ack' = !ack & cyc & stb, write enable only under writable and inside the request branch with [we -> sel; 0], address/data wiring by port origin call, geometry expressions and frozen map. Assigning `init` replaces the whole image and the getter hands out the current object.",
             "read-your-writes relies on amaranth.lib.memory (N4)", "6/C15"),
     "C16": ("fold idiom of the synchroniser chain or the verified shift-register shape; per-case value table; decision-list equality; index agreement",
-            "Synchroniser depth = iteration count of a sync-domain carrier chain, mode table per PinMode member with comb defaults filled in, set/clr decode and output priority list, every per-pin subscript is the loop index, register order and field shapes. pin_count and input_stages are stored as given.",
+            "Synchroniser depth = iteration count of a sync-domain carrier chain, mode table per PinMode member with comb defaults filled in, set/clr decode and output priority list, every per-pin subscript is the loop index, register order and field shapes. pin_count and input_stages are stored as given. The four registers are placed by the builder (explicit offsets are undecided).",
             "nothing beyond A2/N4", "6/C16"),
     "C17": ("CFG dominance / effect order, push-pop pairing, argument provenance",
             "Builder.add validates before storing and refuses when frozen; Cluster/Index push is matched by a pop in finally, by a statement that survives python -O (asserts only look: D11, fixed); as_memory_map freezes, iterates in insertion order and passes name/addr/size/alignment computed as promised, with errors propagating.",
@@ -67,7 +67,7 @@ TABLE = {
             "Every namespace mutation is preceded on all paths by an availability query over the same names with a raising failure edge; names are canonicalised first; str() never reaches the deciding comparison; verdict flag is monotone; the prefix test is one of two hand-verified idioms; every assigned name is a candidate of the conflict search (no positional narrowing in a str()-ordered list). No namespace adopts another namespace's container.",
             "soundness/completeness of the prefix loop beyond idiom recognition (N1)", "6/C18"),
     "C19": ("cross-invocation effect analysis, recursion / while-loop variant classification, set-iteration lint, who-may-call, raise-type discipline, path-typed join, optional-member guards, non-emptiness proofs for reducers / transpositions without an identity, member-direction agreement, pattern-width agreement across a clamp, uniqueness of computed submodule names",
-            "No state carried from one elaboration to the next, every recursion structural or bounded, no set iteration without sorted(), metadata mutators unreachable from elaborate(), explicit raises are ValueError/TypeError (frozen exception table), path-typed values are str-mapped before join, optional bus members are accessed under their feature test, reduce/max/min/next/zip(*x) without identity only on provably non-empty collections, driven plain members are Out and read-only ones In (D8), Case patterns of the Wishbone decoder are as wide as its address port for every accepted parameter (D9: known finding), submodule names computed from paths are guarded by a uniqueness test over all names of the module (D10, fixed), bus setters accept exactly the maps of the bus geometry. The shadow give-up threshold refuses no layout a further doubling would balance.",
+            "No state carried from one elaboration to the next, every recursion structural or bounded, no set iteration without sorted(), metadata mutators unreachable from elaborate(), explicit raises are ValueError/TypeError (frozen exception table), path-typed values are str-mapped before join, optional bus members are accessed under their feature test, reduce/max/min/next/zip(*x) without identity only on provably non-empty collections, driven plain members are Out and read-only ones In (D8), Case patterns of the Wishbone decoder are as wide as its address port for every accepted parameter (D9: known finding), submodule names computed from paths are guarded by a uniqueness test over all names of the module (D10, fixed), bus setters accept exactly the maps of the bus geometry. The shadow give-up threshold refuses no layout a further doubling would balance. Port members of every component are checked for direction without exemption (D14: csr.Register.element, known finding); divisions by parameters follow their validation; x[:-n] is guarded against n == 0; signals of shape-like shape are used as views only (D16, fixed); what a private helper asserts about a public parameter the constructor refuses (D17, fixed).",
             "absence of every internal exception inside Amaranth calls (N4)", "6/C19"),
     "C20": ("two-point port polarity type system; driver/polarity agreement (interface and plain members); signature parameter-set agreement; member presence as a Boolean function",
             "Target ports type as In(initiator signature), every driver of a port member is an output under the port's polarity, connect() arguments have opposite polarity, signature parameters agree across __init__/__eq__/create()/interface constructor, optional members follow features. Every wiring.Signature subclass of the package has value equality (D12, fixed); an iterable parameter is traversed once (D13, fixed); features are stored converted on every path; like-named parameters reach Signature(...) as given; stored parameters are the parameters.",
